@@ -94,11 +94,16 @@ Fixpoint sp_recode (enc : str -> list byte) (l : istr) (run : str) : option istr
       | _, _ => None
       end
   end.
-Definition sp_b64 (l : istr) : istr := iparse (b64 (utf8 (plain_items l))).
+(* the characters of the value itself (no escaping of literal wildcard characters) *)
+Definition raw_items (l : istr) : str :=
+  flat_map (fun i => match i with
+                     | Lit c => [c] | Multi => [c_star] | Single => [c_qm]
+                     | Ph n => c_pct :: n ++ [c_pct] end) l.
+Definition sp_b64 (l : istr) : istr := iparse (b64 (utf8 (raw_items l))).
 Definition sp_b64_offset (l : istr) (i : nat) : istr :=
   let start := match i with 0 => 0 | 1 => 2 | _ => 3 end%nat in
-  let stop := match Nat.modulo (length l + i) 3 with 0 => None | 1 => Some 3 | _ => Some 2 end%nat in
-  iparse (py_slice (b64 (repeat c_space i ++ utf8 (plain_items l))) start stop).
+  let stop := match Nat.modulo (length (utf8 (raw_items l)) + i) 3 with 0 => None | 1 => Some 3 | _ => Some 2 end%nat in
+  iparse (py_slice (b64 (repeat c_space i ++ utf8 (raw_items l))) start stop).
 
 (* ---------- which value types a modifier is defined on ---------- *)
 Inductive kind := KStr | KNum | KBool | KNull | KRe | KCidr | KCmp | KFieldRef | KExists | KOther.
